@@ -329,6 +329,21 @@ func extractC11() *lean {
 	vrconds, _ := c11Conds(c11Method(revF, "", "ValidateRevocation"))
 	l.def("validateRevocationConds", "List String", leanStrList(vrconds), vrconds)
 
+	heconds, _ := c11Conds(c11Method(ambF, "ambassador", "handleError"))
+	l.def("ambassadorHandleErrorConds", "List String", leanStrList(heconds), heconds)
+	var heswitch []string
+	if fd := c11Method(ambF, "ambassador", "handleError"); fd != nil {
+		ast.Inspect(fd, func(n ast.Node) bool {
+			if sw, ok := n.(*ast.SwitchStmt); ok {
+				heswitch = append(heswitch, "switch "+c11Call(sw.Tag))
+			}
+			return true
+		})
+	}
+	l.def("ambassadorHandleErrorSwitches", "List String", leanStrList(heswitch), heswitch)
+	_, hrcalls := c11Conds(c11Method(ambF, "ambassador", "handleNetworkRevocations"))
+	hrc := c11Filter(hrcalls, "jsonLDRevocationCallback", "handleError")
+	l.def("ambassadorHandleRevocationCalls", "List String", leanStrList(hrc), hrc)
 	_, acalls := c11Conds(c11Method(ambF, "ambassador", "jsonLDRevocationCallback"))
 	acl := c11Filter(acalls, "RegisterRevocation")
 	l.def("ambassadorRevocationCalls", "List String", leanStrList(acl), acl)
